@@ -28,6 +28,13 @@ def apply_mutant(scratch, spec):
             src = f.read()
         cnt = src.count(edit["old"])
         want = edit.get("count", 1)
+        if edit.get("first_only"):
+            if cnt < 1:
+                raise SystemExit(f"mutant {spec['name']}: anchor not found in {edit['file']}")
+            src = src.replace(edit["old"], edit["new"], 1)
+            with open(path, "w") as f:
+                f.write(src)
+            continue
         if cnt != want:
             raise SystemExit(f"mutant {spec['name']}: expected {want} occurrence(s) of the anchor in {edit['file']}, found {cnt}")
         src = src.replace(edit["old"], edit["new"])
